@@ -26,6 +26,14 @@ Sub-oracles
   alpha-closed      alpha(Tn) equals the closed form within the propagated ideal-spline error plus the
                     (observed, separately bounded) contribution of the nodal errors
   outside-table     (outcome) un-extrapolated FreeEnergy outside its table raises WallGoError
+
+History-snap (call histories on one object): a re-trace with one end of each range moved to within rounding (3e-16 ..
+1e-8 relative) beyond a temperature the first table already held, same dT/rTol/paranoid with dT <= 2e-3 Tn so that
+the integrator retraces its steps (verified: every interior temperature of the new table is one of the first).  p, dp,
+ddp at and next to the new end must stay as accurate (against the closed form) as the first table was: allowance =
+max(10 x first table's relative accuracy at the same distance from its own end, 30 x its accuracy at that very
+temperature, nodal-noise image K delta (1, 4/dT, 16/dT^2) with delta measured on the first table, measured envelope
+SNAP_ENV).  Catches tables with almost coincident temperatures at an end (derivatives = rounding noise).
 """
 from __future__ import annotations
 
@@ -89,6 +97,11 @@ EXHAUSTIVE_SUBDOMAINS = []
 PH = ("High", "Low")
 
 
+# history-snap: measured envelope (x5, rounded up) of the relative error of p, dp, ddp next to the new end of a
+# re-traced table on the unchanged tree (dT <= 2e-3 Tn, 6 seeds x quick tier): end effect of the cubic spline
+SNAP_ENV = {"p": 5e-7, "dp": 2.5e-4, "ddp": 0.1}   # measured maxima 9.3e-8, 4.3e-5, 1.8e-2 (seeds 1 2 3 5 8 13 21 34)
+
+
 def _r(x, n=10):
     return float(f"{x:.{n}g}")
 
@@ -144,8 +157,17 @@ def st_trace_plan(draw, cf, Tn, keep_start_inside=False):
         side = min(Tn - max(TminH, exh["lo"]), TmaxH - Tn, Tn - TminL, min(TmaxL, exl["hi"]) - Tn)
         dT_rel = min(dT_rel, max(side, 0.0) / Tn / 3.5)
         dT_rel = max(dT_rel, width / Tn / 600.0)
-    plan.update({"rTol": rTol, "dT": _r(dT_rel * Tn, 6), "paranoid": draw(st.booleans()),
-                 "ranges": {"high": [_r(TminH, 12), _r(TmaxH, 12)], "low": [_r(TminL, 12), _r(TmaxL, 12)]}})
+    dT = _r(dT_rel * Tn, 6)
+    rng = {"high": [_r(TminH, 12), _r(TmaxH, 12)], "low": [_r(TminL, 12), _r(TmaxL, 12)]}
+    if draw(st.sampled_from([False, False, True])):
+        # ranges that are whole multiples of dT away from the starting temperature, as round user input gives
+        # (Tn = 100, TMin = 80, dT = 0.01): the integrator then reaches the end within rounding one step early
+        for k in rng:
+            for j in (0, 1):
+                n = max(1, round(abs(rng[k][j] - Tn) / dT))
+                rng[k][j] = Tn - n * dT if j == 0 else Tn + n * dT
+        plan["aligned"] = True
+    plan.update({"rTol": rTol, "dT": dT, "paranoid": draw(st.booleans()), "ranges": rng})
     return plan
 
 
@@ -176,6 +198,14 @@ def st_case(draw):
             keys = ["ch", "cs"] if fam == "Z2x2" else ["g", "A"]
             case["mutate"] = {k: _r(1.0 + draw(st.floats(-0.02, 0.02)), 5) for k in keys}
         case["between"] = [_r(draw(st.floats(0.0, 1.0)), 4) for _ in range(3)]
+        if "mutate" not in case and draw(st.booleans()):
+            # second request = the first one with one end of each range moved to just beyond a temperature the
+            # first table already holds (same dT / rTol / paranoid, so the integrator retraces its steps and
+            # reaches the new end within rounding one step early)
+            case["snap"] = {"end": draw(st.sampled_from(["min", "max"])), "u": _r(draw(st.floats(0.0, 1.0)), 4),
+                            "rel": draw(st.sampled_from([3e-16, 3e-14, 1e-11, 1e-8]))}
+            # steps capped by dT (as in the manager's traces, dT = scale * tol^(1/4)), not error-controlled
+            case["dT"] = _r(min(case["dT"], Tn * 10.0 ** draw(st.floats(-3.3, -2.7))), 6)
     return case
 
 
@@ -330,6 +360,14 @@ def build(case, v):
             float(getattr(th, "ddp" + name)(2.0 * hi))
     except (OverflowError, ZeroDivisionError, FloatingPointError, ValueError):
         pass   # only possible after a C11 hop; judged on the final object below
+    for fe in (th.freeEnergyHigh, th.freeEnergyLow):
+        if not fe.minPossibleTemperature[0] < Tn < fe.maxPossibleTemperature[0]:
+            # tracePhase clamps a new request to [minPossible, maxPossible] of the previous table (table end
+            # -+ 2 dT); a start temperature outside that window is not a usable history (WallGo then builds a
+            # (checked before the potential is changed in place: the tables then still belong to it)
+            # non-monotone table and CubicSpline raises ValueError - reported as an observation, not asserted here)
+            v.label("history:start-outside-previous-window")
+            return th, cf, V, case["rTol"], case["dT"], Tn, err
     if case.get("mutate"):
         p2 = dict(spec["p"])
         for k, f in case["mutate"].items():
@@ -346,13 +384,46 @@ def build(case, v):
         else:
             v.label("history:mutation-dropped")
     sec = case["second"]
-    for fe in (th.freeEnergyHigh, th.freeEnergyLow):
-        if not fe.minPossibleTemperature[0] < Tn < fe.maxPossibleTemperature[0]:
-            # tracePhase clamps a new request to [minPossible, maxPossible] of the previous table (table end
-            # -+ 2 dT); a start temperature outside that window is not a usable history (WallGo then builds a
-            # non-monotone table and CubicSpline raises ValueError - reported as an observation, not asserted here)
-            v.label("history:start-outside-previous-window")
-            return th, cf, V, case["rTol"], case["dT"], Tn, err
+    snap = case.get("snap")
+    snap_before = {}
+    snap_end_acc = {}
+    snap_nodes = {}
+    if snap:
+        sec = {"rTol": case["rTol"], "dT": case["dT"], "paranoid": case["paranoid"],
+               "ranges": {k: list(r) for k, r in case["ranges"].items()}}
+        for which, fe in (("high", th.freeEnergyHigh), ("low", th.freeEnergyLow)):
+            X = np.asarray(fe._interpolationPoints, dtype=float)
+            side = X[X < Tn][3:] if snap["end"] == "min" else X[X > Tn][:-3]
+            if side.size == 0:
+                v.label("history:snap-no-room")
+                continue
+            node = float(side[min(int(snap["u"] * side.size), side.size - 1)])
+            sgn = 1.0 if snap["end"] == "min" else -1.0
+            if snap["end"] == "min":
+                sec["ranges"][which][0] = node * (1.0 - snap["rel"])
+            else:
+                sec["ranges"][which][1] = node * (1.0 + snap["rel"])
+            # values of the first table at and next to the new end (interior points of the first table)
+            name = "HighT" if which == "high" else "LowT"
+            probes = [node + sgn * f * case["dT"] for f in (0.0, 0.3, 1.5, 2.0, 4.5)]
+            snap_before[which] = [(T, float(getattr(th, "p" + name)(T)), float(getattr(th, "dp" + name)(T)),
+                                   float(getattr(th, "ddp" + name)(T))) for T in probes]
+            # like for like: relative accuracy of the first table at the same distances from ITS OWN end
+            # (a cubic spline is less accurate next to its ends; same dT and rTol, slowly varying function)
+            end0 = float(X[0] if snap["end"] == "min" else X[-1])
+            ex_ = zp.existence_ext(cf, which)
+            acc = []
+            for f in (0.0, 0.3, 1.5, 2.0, 4.5):
+                T_ = end0 + sgn * f * case["dT"]
+                bt_ = zp.branch_thermo(cf, which, ex_, T_)
+                if bt_ is None:
+                    acc.append(None)
+                    continue
+                vals = [float(getattr(th, q + name)(T_)) for q in ("p", "dp", "ddp")]
+                acc.append([abs(a_ - b_) / abs(b_) if b_ != 0 and math.isfinite(a_) else float("inf") for a_, b_ in zip(vals, bt_)])
+            snap_end_acc[which] = acc
+            snap_nodes[which] = X.copy()
+        v.label(f"history:snap-{snap['end']}")
     try:
         for which, fe in (("high", th.freeEnergyHigh), ("low", th.freeEnergyLow)):
             a, b = sec["ranges"][which]
@@ -364,6 +435,54 @@ def build(case, v):
         th.setExtrapolate()
     except (OverflowError, ZeroDivisionError, FloatingPointError, ValueError) as exc:
         err = exc
+    # metamorphic: the same trace, ended at (within rounding of) a temperature the first table already held, must
+    # give the same equation of state there. Interpolation differs legitimately by the end condition of the spline:
+    # allowance = 10 x the relative accuracy the first table had at the same distance from its own end (like for like),
+    # or 30 x its accuracy at that very temperature, whichever is larger (both against the closed form)
+    for which, rows in snap_before.items():
+        name = "HighT" if which == "high" else "LowT"
+        ex = zp.existence_ext(cf, which)
+        # the relation is only claimed when the integrator did retrace its steps: every temperature of the new table
+        # except its new end is a temperature of the first table (not so when the steps are error-controlled and the
+        # new request is clamped to the previous table's window, or when the first table ended at a genuine phase end)
+        fe2 = th.freeEnergyHigh if which == "high" else th.freeEnergyLow
+        X2 = np.asarray(fe2._interpolationPoints, dtype=float)
+        inner = X2[1:-1]   # (the other end is clamped to the previous table's window, also a new temperature)
+        X1 = snap_nodes[which]
+        j = np.clip(np.searchsorted(X1, inner), 1, X1.size - 1)
+        dist = np.minimum(np.abs(X1[j] - inner), np.abs(X1[j - 1] - inner))
+        if inner.size < 8 or float(np.max(dist / inner)) > 1e-9:
+            v.label("history-snap:steps-not-retraced")
+            continue
+        v.label("history-snap:retraced")
+        v.checked("history-snap")
+        bt_node = zp.branch_thermo(cf, which, ex, rows[0][0])
+        if bt_node is None:
+            continue
+        delta_nodal = max(abs(rows[0][1] - bt_node[0]), 64 * EPS * abs(bt_node[0]))
+        for irow, (T, p0, dp0, ddp0) in enumerate(rows):
+            bt = zp.branch_thermo(cf, which, ex, T)
+            acc = snap_end_acc[which][irow]
+            if bt is None or acc is None or not all(math.isfinite(q) for q in (p0, dp0, ddp0)):
+                continue
+            got = [float(getattr(th, q + name)(T)) for q in ("p", "dp", "ddp")]
+            for iq, (q, g, b0, exact) in enumerate(zip(("p", "dp", "ddp"), got, (p0, dp0, ddp0), bt)):
+                # + what nodal errors do to a spline of spacing dT; their size is measured on the first table at the
+                #   node the new end was taken from (the same trace), with the rounding of V as floor
+                tol_term = K_TOL * delta_nodal * (1.0, 4.0 / sec["dT"], 16.0 / sec["dT"] ** 2)[iq]
+                allow = max(10.0 * acc[iq] * abs(exact), 30.0 * abs(b0 - exact), tol_term, SNAP_ENV[q] * abs(exact))
+                key = f"snap_relerr_{q}"
+                v.info[key] = max(v.info.get(key, 0.0), abs(g - exact) / abs(exact))
+                if not abs(g - exact) <= allow:
+                    v.fail("history-snap", f"{spec['family']} phase={which} end={snap['end']} {q}",
+                           f"after re-tracing with the {snap['end']} end of the range moved to T={T:.12g}(1-+{snap['rel']:g}), a "
+                           f"temperature the first table held, {q}{name}({T:.10g}) = {g!r}; first table {b0!r}, closed form "
+                           f"{exact!r} (relative error {abs(g - exact) / abs(exact):.3e}, first table "
+                           f"{abs(b0 - exact) / abs(exact):.3e})", T=T)
+                    break
+            else:
+                continue
+            break
     return th, cf, V, sec["rTol"], sec["dT"], Tn, err
 
 
